@@ -5,7 +5,7 @@
 From Coq Require Import ZArith List Bool Lia.
 From Tickit Require Import RectDefs RBDefs RBSpec RBLemmas RBSpanProofs RBAbsLemmas RBInv RBOpProofs RBProofs RBProps
                            RBTheorems Gen_Linechars RBGlyphs RBFlushDefs RBFlushSpec RBFlushProofs RBWidth RBFlushCols
-                           RBFlushReach RBTermSim RBFlushShown RBFlushFull.
+                           RBFlushReach RBTermSim RBFlushShown RBFlushFull RBPenLemmas.
 Import ListNotations.
 Local Open Scope Z_scope.
 
@@ -96,7 +96,7 @@ Qed.
 
 Definition rexp_case (e : texp) (c : cellc) : texp :=
   match e with
-  | XIs (32 :: nil) p => (match c with AErase _ => XKeep | _ => XIs [32] p end)
+  | XIs (32 :: nil) p => (match c with AErase q => if pen_reverse q then XIs [32] p else XKeep | _ => XIs [32] p end)
   | e' => e'
   end.
 
@@ -123,17 +123,11 @@ Proof.
   destruct s; [|reflexivity]. destruct c; try reflexivity. exfalso. eapply H. reflexivity.
 Qed.
 
-Lemma pen_eqb_refl : forall p, pen_eqb p p = true.
-Proof.
-  intros [a b c d]. unfold pen_eqb. cbn [p_fg p_bg p_b p_u].
-  assert (R : forall o, oz_eqb o o = true) by (intros [z|]; cbn; [apply Z.eqb_refl|reflexivity]).
-  now rewrite !R.
-Qed.
-
 (* what a cell contributes to the printable text *)
 Definition ptext (r : row) (x : Z) : list Z :=
   match abs_cell r x with
-  | ASkip | AErase _ => []
+  | ASkip => []
+  | AErase p => if pen_reverse p then [32] else []
   | _ => t_text (shown r x dtc)
   end.
 
@@ -183,7 +177,7 @@ Proof.
         -- destruct (Q2 W1 E0) as [(H & I1 & I2)|H]; [|right; exact H].
            exfalso. discriminate (Whole ltac:(lia) ltac:(lia)).
         -- destruct (Q3 W1 N0) as [(H & _)|H]; [left|right]; exact H.
-  - reflexivity.
+  - (* erase *) cbn [rexp_case]. destruct (pen_reverse p); reflexivity.
   - specialize (K3 eq_refl). subst n. replace (x - i) with 0 by lia. cbn [Z.to_nat nth t_text].
     rewrite rexp_nonerase by (intros; discriminate). reflexivity.
   - specialize (K3 eq_refl). subst n. replace (x - i) with 0 by lia. cbn [Z.to_nat nth t_text].
@@ -223,7 +217,11 @@ Proof.
 Qed.
 
 Lemma ptext_span : forall r i c n x, WF r -> 0 <= i < len r -> ck (get r i) = Start c n -> i <= x < i + n ->
-  ptext r x = match c with CSkip | CErase _ => [] | _ => t_text (nth (Z.to_nat (x - i)) (span_out c n) dtc) end.
+  ptext r x = match c with
+              | CSkip => []
+              | CErase p => if pen_reverse p then [32] else []
+              | _ => t_text (nth (Z.to_nat (x - i)) (span_out c n) dtc)
+              end.
 Proof.
   intros r i c n x W Hi Ei Hx. unfold ptext.
   rewrite (span_cells r i c n x W Hi Ei Hx), (shown_span r i c n x dtc W Hi Ei Hx).
@@ -258,15 +256,31 @@ Proof.
   rewrite A3. reflexivity.
 Qed.
 
-Lemma prints_of_pen_print : forall p u rest, prints_of (TSetPen p :: TPrint u :: rest) = u ++ prints_of rest.
-Proof. reflexivity. Qed.
+Lemma xpay_goto : forall pn (g : bool) line col tail,
+  xterm_payload pn ((if g then [TGoto line col] else []) ++ tail) = xterm_payload pn tail.
+Proof. intros pn [] line col tail; reflexivity. Qed.
 
-Theorem flush_line_payload : forall fuel r line col phycol ops,
+Lemma xpay_prints : forall prints pn rest, (forall o, In o prints -> print_ok o) ->
+  xterm_payload pn (prints ++ rest) = prints_of prints ++ xterm_payload pn rest.
+Proof.
+  induction prints as [|o prints IH]; intros pn rest H; [reflexivity|].
+  assert (Ho := H o (or_introl eq_refl)). destruct o as [| |u|]; cbn [print_ok] in Ho; try contradiction.
+  cbn [app xterm_payload]. rewrite IH by (intros o' Ho'; apply H; right; exact Ho').
+  unfold prints_of. cbn [flat_map]. now rewrite app_assoc.
+Qed.
+
+Lemma concat_const : forall {A} (x : list Z) (l : list A), concat (map (fun _ => x) l) = concat (repeat x (length l)).
+Proof. induction l as [|y l IH]; cbn; [reflexivity|]. now rewrite IH. Qed.
+
+Lemma concat_repeat_single : forall (c : Z) k, concat (repeat [c] k) = repeat c k.
+Proof. induction k; cbn; [reflexivity|]. now f_equal. Qed.
+
+Theorem flush_line_payload : forall fuel r line col phycol ops pn,
   WF r -> row_content_ok r -> at_boundary r col ->
   flush_line fuel r line col phycol = Ok ops ->
-  prints_of ops = concat (map (ptext r) (zseq col (Z.to_nat (len r - col)))).
+  xterm_payload pn ops = concat (map (ptext r) (zseq col (Z.to_nat (len r - col)))).
 Proof.
-  induction fuel as [|f IH]; intros r line col phycol ops W RC Hb E.
+  induction fuel as [|f IH]; intros r line col phycol ops pn W RC Hb E.
   - cbn [flush_line] in E. destruct (Z.leb_spec (len r) col) as [Hge|Hlt]; [|discriminate].
     inversion E; subst. destruct Hb as [->|(Hc & _)]; [|lia]. rewrite Z.sub_diag. reflexivity.
   - cbn [flush_line] in E. destruct (Z.leb_spec (len r) col) as [Hge|Hlt].
@@ -281,11 +295,10 @@ Proof.
               zseq col (Z.to_nat (len r - col)) = zseq col (Z.to_nat m) ++ zseq (col + m) (Z.to_nat (len r - (col + m)))).
     { intros m Hm H0. replace (Z.to_nat (len r - col)) with (Z.to_nat m + Z.to_nat (len r - (col + m)))%nat by lia.
       rewrite zseq_app. rewrite Z2Nat.id by lia. reflexivity. }
-    assert (Gp : forall tail, prints_of ((if phycol <? col then [TGoto line col] else []) ++ tail) = prints_of tail).
-    { intros tail. destruct (phycol <? col); reflexivity. }
+    assert (Gp := fun q tail => xpay_goto q (phycol <? col) line col tail).
     destruct c as [|p s offs|p|p m|p cp].
     + (* skip *)
-      rewrite (IH r line (col + n) phycol ops W RC Hn E).
+      rewrite (IH r line (col + n) phycol ops pn W RC Hn E).
       rewrite (Split n) by lia. rewrite map_app, concat_app.
       rewrite (map_ext_in (ptext r) (fun _ => []) (zseq col (Z.to_nat n))).
       * rewrite concat_nils. reflexivity.
@@ -297,7 +310,7 @@ Proof.
       subst ops. clear E.
       destruct Gw as (G1 & G2 & G3).
       destruct (text_emit_prints_ok p s offs n G1 G2 K1 G3) as (prints & Ep & Hp & Hlc).
-      rewrite Gp, prints_of_app, (IH r line (col + n) (col + n) rest W RC Hn Er).
+      rewrite Gp, Ep. cbn [app xterm_payload]. rewrite (xpay_prints prints p rest Hp), (IH r line (col + n) (col + n) rest p W RC Hn Er).
       rewrite (Split n) by lia. rewrite map_app, concat_app. f_equal.
       rewrite (span_payload col n (ptext r) (span_out (CText p s offs) n)); try lia.
       * cbn [span_out]. rewrite Ep. change (ops_cells (canon_pen p) (TSetPen p :: prints)) with (ops_cells (canon_pen p) prints).
@@ -313,10 +326,12 @@ Proof.
       assert (Eo : ops = (if phycol <? col then [TGoto line col] else []) ++ [TSetPen p; TErase n mv0] ++ rest)
         by (inversion E; reflexivity).
       subst ops. clear E.
-      rewrite Gp, prints_of_app, (IH r line (col + n) _ rest W RC Hn Er).
-      rewrite (Split n) by lia. rewrite map_app, concat_app.
-      rewrite (map_ext_in (ptext r) (fun _ => []) (zseq col (Z.to_nat n))).
-      * rewrite concat_nils. reflexivity.
+      rewrite Gp. cbn [app xterm_payload]. rewrite (IH r line (col + n) _ rest p W RC Hn Er).
+      rewrite (Split n) by lia. rewrite map_app, concat_app. f_equal.
+      rewrite (map_ext_in (ptext r) (fun _ => if pen_reverse p then [32] else []) (zseq col (Z.to_nat n))).
+      * destruct (pen_reverse p).
+        -- rewrite concat_const, concat_repeat_single. unfold zseq. rewrite map_length, seq_length. reflexivity.
+        -- rewrite concat_nils. reflexivity.
       * intros x Hx. apply in_zseq in Hx. rewrite PT by lia. reflexivity.
     + (* line run *)
       specialize (K3 eq_refl). subst n.
@@ -327,7 +342,7 @@ Proof.
         destruct (flush_line f r line c' ph) as [rest| |] eqn:Er end; cbn [bind] in E; try discriminate.
       inversion E; subst ops. clear E.
       assert (Bc : c' <= len r) by (destruct R2 as [->|(? & _)]; lia).
-      rewrite Gp. cbn [app]. rewrite prints_of_pen_print, (IH r line c' _ rest W RC R2 Er).
+      rewrite Gp. cbn [app xterm_payload]. rewrite (IH r line c' _ rest p W RC R2 Er).
       rewrite (Split (c' - col)) by lia. replace (col + (c' - col)) with c' by lia.
       rewrite map_app, concat_app. f_equal.
       replace (Z.to_nat (c' - col)) with (S (Z.to_nat (c' - (col + 1)))) by lia. rewrite zseq_S. cbn [map concat].
@@ -336,7 +351,7 @@ Proof.
       destruct (flush_line f r line (col + n) (col + n)) as [rest| |] eqn:Er; cbn [bind] in E; try discriminate.
       inversion E; subst ops. clear E.
       specialize (K3 eq_refl). subst n.
-      rewrite Gp. cbn [app]. rewrite prints_of_pen_print, (IH r line (col + 1) (col + 1) rest W RC Hn Er).
+      rewrite Gp. cbn [app xterm_payload]. rewrite (IH r line (col + 1) (col + 1) rest p W RC Hn Er).
       rewrite (Split 1) by lia. rewrite map_app, concat_app. f_equal.
       change (Z.to_nat 1) with 1%nat. rewrite zseq_S. cbn [zseq seq map concat]. rewrite PT by lia. rewrite Z.sub_diag. reflexivity.
 Qed.
@@ -351,25 +366,39 @@ Proof.
   apply IH. intros y Hy. apply H. right. exact Hy.
 Qed.
 
-Lemma flush_rows_payload : forall rows line ops,
+Fixpoint pen_after (pn : pen) (ops : list termop) : pen :=
+  match ops with
+  | [] => pn
+  | TSetPen p :: r => pen_after p r
+  | _ :: r => pen_after pn r
+  end.
+
+Lemma xpay_app : forall a b pn, xterm_payload pn (a ++ b) = xterm_payload pn a ++ xterm_payload (pen_after pn a) b.
+Proof.
+  induction a as [|o a IH]; intros b pn; [reflexivity|]. destruct o; cbn [app xterm_payload pen_after]; rewrite IH; try reflexivity.
+  - now rewrite app_assoc.
+  - now rewrite app_assoc.
+Qed.
+
+Lemma flush_rows_payload : forall rows line ops pn,
   (forall r, In r rows -> WF r /\ row_content_ok r) ->
   flush_rows rows line = Ok ops ->
-  pm (flat_map row_exps (map abs_row rows)) (prints_of ops).
+  pm (flat_map row_exps (map abs_row rows)) (xterm_payload pn ops).
 Proof.
-  induction rows as [|r rows IH]; intros line ops H E; cbn [flush_rows] in E.
+  induction rows as [|r rows IH]; intros line ops pn H E; cbn [flush_rows] in E.
   - inversion E; subst. constructor.
   - destruct (flush_line (S (length r)) r line 0 (-1)) as [a| |] eqn:Ea; cbn [bind] in E; try discriminate.
     destruct (flush_rows rows (line + 1)) as [b| |] eqn:Eb; cbn [bind] in E; try discriminate.
     inversion E; subst ops. clear E.
     destruct (H r (or_introl eq_refl)) as (W & RC).
-    cbn [map flat_map]. rewrite prints_of_app. apply pm_app.
+    cbn [map flat_map]. rewrite xpay_app. apply pm_app.
     + rewrite row_exps_map.
-      rewrite (flush_line_payload _ r line 0 (-1) a W RC (row_start_boundary r W) Ea).
+      rewrite (flush_line_payload _ r line 0 (-1) a pn W RC (row_start_boundary r W) Ea).
       assert (El : length (abs_row r) = Z.to_nat (len r - 0)).
       { pose proof (zlen_abs_row r) as Hl. unfold zlen in Hl. lia. }
       rewrite El. apply pm_cells. apply Forall2_map_in. intros x Hx. apply in_zseq in Hx.
       apply cell_admissible; [exact W|exact RC|lia].
-    + apply (IH (line + 1) b (fun r' Hr' => H r' (or_intror Hr')) Eb).
+    + apply (IH (line + 1) b _ (fun r' Hr' => H r' (or_intror Hr')) Eb).
 Qed.
 
 (* The printable text a flush sends -- the code points of all its prints, in order -- is the
@@ -377,15 +406,15 @@ Qed.
    grapheme once, nothing for Skip and Erase cells (Erase goes out as ECH), a blank or nothing
    for a half-visible double-width character; in particular nothing of the hidden part of a
    string is ever sent. *)
-Theorem flush_payload : forall s ops s',
+Theorem flush_payload : forall s ops s' pn,
   Inv s -> acells_ok (abs_rb s) -> flush s = Ok (ops, s') ->
-  payload_checkb (abs_rb s) (prints_of ops) = true.
+  payload_checkb (abs_rb s) (xterm_payload pn ops) = true.
 Proof.
-  intros s ops s' I Hc E. unfold flush in E.
+  intros s ops s' pn I Hc E. unfold flush in E.
   destruct (flush_rows (cells s) 0) as [o| |] eqn:Er; cbn [bind] in E; try discriminate.
   inversion E; subst o s'. clear E.
   unfold payload_checkb. cbv zeta. apply pm_sound; [|lia].
-  cbn [abs_rb ag]. apply (flush_rows_payload (cells s) 0 ops); [|exact Er].
+  cbn [abs_rb ag]. apply (flush_rows_payload (cells s) 0 ops pn); [|exact Er].
   intros r Hr. apply In_nth with (d := []) in Hr. destruct Hr as (k & Hk & <-).
   assert (Hy : 0 <= Z.of_nat k < rb_lines s) by (rewrite <- (inv_lines s I); unfold zlen; lia).
   destruct (inv_rows s I (Z.of_nat k) Hy) as (_ & W & _).
@@ -393,16 +422,16 @@ Proof.
   unfold zn in W, RC. rewrite Nat2Z.id in W, RC. split; assumption.
 Qed.
 
-Theorem flush_payload_reachable : forall L C prog s v,
+Theorem flush_payload_reachable : forall L C prog s v pn,
   0 <= L -> 0 <= C -> Forall op_ok prog -> run (rb_new L C) prog = Ok (s, v) ->
   exists ops, flush s = Ok (ops, reset s) /\
-    payload_checkb (fst (arun (a_new L C) prog)) (prints_of ops) = true.
+    payload_checkb (fst (arun (a_new L C) prog)) (xterm_payload pn ops) = true.
 Proof.
-  intros L C prog s v HL HC Ho E.
+  intros L C prog s v pn HL HC Ho E.
   destruct (program_refines L C prog HL HC) as (t & w & F & I & Ab & _). rewrite E in F. inversion F; subst t w.
   assert (Hc : acells_ok (abs_rb s)).
   { rewrite Ab. apply arun_aok; [exact Ho|apply ashape_new; assumption|apply aok_new; assumption]. }
   destruct (flush_total_and_resets s I) as (ops & Ef & _).
   exists ops. split; [exact Ef|].
-  rewrite <- Ab. exact (flush_payload s ops (reset s) I Hc Ef).
+  rewrite <- Ab. exact (flush_payload s ops (reset s) pn I Hc Ef).
 Qed.
